@@ -606,6 +606,21 @@ pub fn c04(a: &Args) -> CaseSet {
         let prog = Prog::Subs(Box::new(mk(te.clone(), i)), vec![(v.clone(), mk(rt.clone(), i / 3))]);
         add_expect(&mut cs, &tb, prog, vec![Query::Vars, Query::Eval(nv)], format!("{te} with {v}->{rt}"), "subs-keeps-the-names", n_operands(&want_chain), &want, &wv);
     }
+    // a derivative that collapses to one variable (or one function of it) keeps the names of its antiderivative, and so does
+    // everything derived from it
+    {
+        let ftb = float_table();
+        let ix = |n: &str| ftb.iter().position(|o| o.repr == n).unwrap();
+        let ixu = |n: &str| ftb.iter().position(|o| o.repr == n && o.unary).unwrap();
+        let xy = vec!["x".to_string(), "y".to_string()];
+        let d = Prog::Partial(vec![0], 0, Box::new(Prog::Flat("x*y".into())));          // = y, lists [x, y]
+        let ds = Prog::Partial(vec![0], 0, Box::new(Prog::Flat("x*sin(y)".into())));    // = sin(y), lists [x, y]
+        add_expect(&mut cs, &ftb, Prog::Un("-".into(), Box::new(d.clone())), vec![Query::Vars, Query::Eval(2)], "-(d/dx x*y)".into(), "collapsed-derivative-keeps-its-names", 3, &tun(ixu("-"), Term::Var(1)), &xy);
+        add_expect(&mut cs, &ftb, Prog::Un("cos".into(), Box::new(ds.clone())), vec![Query::Vars, Query::Eval(2)], "cos(d/dx x*sin(y))".into(), "collapsed-derivative-keeps-its-names", 3, &tun(ixu("cos"), tun(ixu("sin"), Term::Var(1))), &xy);
+        add_expect(&mut cs, &ftb, Prog::Bin("+".into(), Box::new(d.clone()), Box::new(Prog::Flat("z".into()))), vec![Query::Vars, Query::Eval(3)], "(d/dx x*y) + z".into(), "collapsed-derivative-keeps-its-names", 3, &tbin(ix("+"), Term::Var(1), Term::Var(2)), &vec!["x".to_string(), "y".to_string(), "z".to_string()]);
+        add_expect(&mut cs, &ftb, Prog::ToFlat(Box::new(Prog::ToDeep(Box::new(d.clone())))), vec![Query::Vars, Query::Eval(2), Query::EvalVec(2)], "d/dx x*y converted to deep and back".into(), "collapsed-derivative-keeps-its-names", 3, &Term::Var(1), &xy);
+        add_expect(&mut cs, &ftb, Prog::Subs(Box::new(ds.clone()), vec![("y".to_string(), Prog::Flat("x+y".into()))]), vec![Query::Vars, Query::Eval(2)], "d/dx x*sin(y) with y -> x+y".into(), "collapsed-derivative-keeps-its-names", 3, &tun(ixu("sin"), tbin(ix("+"), Term::Var(0), Term::Var(1))), &xy);
+    }
     // derived expressions over MANY names: two operands with interleaved variable lists whose union exceeds every inline
     // buffer (16), combined by name and by the overloaded operators, then used: the sorted union, the n-th value for the n-th name
     for (na, nb, shape) in [(9usize, 9usize, 0usize), (15, 2, 1), (2, 15, 2), (10, 10, 3), (17, 3, 1), (8, 9, 0), (12, 12, 2)] {
@@ -798,6 +813,18 @@ pub fn c08(a: &Args) -> CaseSet {
             }
         }
     }
+    // a group nested hundreds of parentheses deep inside the second argument of a call, followed by more of that argument
+    // (flat forms only: the recursive deep parser is out of its depth here, known finding F10)
+    for &k in [100usize, 255, 256, 257, 300, 520].iter() {
+        let (ix_max, ix_plus) = (t0.iter().position(|o| o.repr == "max").unwrap(), t0.iter().position(|o| o.repr == "+").unwrap());
+        let text = format!("max(x, {}y{} + 10)", "(".repeat(k), ")".repeat(k));
+        let want = tbin(ix_max, Term::Var(0), tbin(ix_plus, Term::Var(1), Term::Lit("10".into())));
+        let vars = vec!["x".to_string(), "y".to_string()];
+        for prog in [Prog::Flat(text.clone()), Prog::FlatWo(text.clone())] {
+            let n = add_expect(&mut cs, &t0, prog, vec![Query::Vars, Query::Eval(2)], format!("max(x, ((..{k}..(y)..)) + 10)"), "deep-group-in-second-argument", k, &want, &vars);
+            cs.cases[n].model = false;
+        }
+    }
     for i in 0..a.n {
         let tb = if r.chance(2, 3) { [std_tables()[0].clone(), std_tables()[1].clone(), std_tables()[2].clone()][r.below(3)].clone() } else { random_table(&mut r) };
         if !tb.iter().any(|o| o.bin.is_some() && is_alpha_name(&o.repr)) { continue }
@@ -837,7 +864,7 @@ pub fn c10(a: &Args) -> CaseSet {
     // between literals one of which belongs to a tighter operator (the schedule of the operand must not be reused)
     {
         let tb = std_tables()[0].clone();
-        for text in ["x+y/2+1", "x+y*2+3", "x+2+3*y", "x+y^2+1", "x*y^2*3", "x+1+2", "2+x+3*4", "x*2*3+1", "1+x*2*3"] {
+        for text in ["x+y/2+1", "x+y*2+3", "x+2+3*y", "x+y^2+1", "x*y^2*3", "x+1+2", "2+x+3*4", "x*2*3+1", "1+x*2*3", "x+y-2+3", "x*y/2*3"] {
             set_table(&tb);
             use exmex::Express;
             let Ok(fx) = FE::parse_wo_compile(Box::leak(text.to_string().into_boxed_str())) else { continue };
@@ -846,6 +873,9 @@ pub fn c10(a: &Args) -> CaseSet {
             for (ui, un) in ["sin", "cos", "-", "ln"].iter().enumerate() {
                 let k = tb.iter().position(|o| o.repr == *un && o.unary).unwrap();
                 let want = tun(k, base_term.clone());
+                // the unary operator applied to the DEEP expression, the result flattened (the unary must end up on the operator applied last)
+                add_expect(&mut cs, &tb, Prog::ToFlat(Box::new(Prog::Un(un.to_string(), Box::new(Prog::Deep(text.into()))))), vec![Query::Vars, Query::Eval(nv), Query::EvalVec(nv)], format!("{un} applied to the deep expression {text}, flattened"), "unary-on-flat-with-literal-tail", 3, &want, &vars);
+                add_expect(&mut cs, &tb, Prog::ToFlat(Box::new(Prog::HelperUn(if *un == "-" { "cos".to_string() } else { un.to_string() }, Box::new(Prog::Deep(text.into()))))), vec![Query::Vars, Query::Eval(nv)], format!("helper {un} on the deep expression {text}, flattened"), "unary-on-flat-with-literal-tail", 3, &tun(tb.iter().position(|o| o.repr == (if *un == "-" { "cos" } else { *un }) && o.unary).unwrap(), base_term.clone()), &vars);
                 for (bi, base) in [Prog::Flat(text.into()), Prog::FlatWo(text.into()), Prog::ToFlat(Box::new(Prog::Deep(text.into())))].into_iter().enumerate() {
                     if (ui + bi) % 2 == 1 && !a.thorough { continue }
                     add_expect(&mut cs, &tb, Prog::Un(un.to_string(), Box::new(base.clone())), vec![Query::Vars, Query::Eval(nv), Query::EvalVec(nv)], format!("{un} applied to the flat expression {}", pretty_prog(&base)), "unary-on-flat-with-literal-tail", 3, &want, &vars);
@@ -1577,7 +1607,9 @@ pub fn c09(a: &Args) -> CaseSet {
     // where "nothing changed" must not be taken for "nothing left to do"
     // single derivatives taken one after the other on FLAT expressions (every step converts flat -> deep -> flat), also
     // where a derivative collapses to one variable or a number while the other variables stay listed
-    for text in ["x*y+z", "x*sin(y)", "x*y", "a*b+c", "x*y^2", "x+y+z", "sin(x)*y+z*z"] {
+    let tbk: Vec<OpSpec> = { let mut t = vec![OpSpec::cst("K")]; t.extend(float_table()); t };   // a table whose first entry is a constant
+    for (text, tb) in [("x*y+z", &tb), ("x*sin(y)", &tb), ("x*y", &tb), ("a*b+c", &tb), ("x*y^2", &tb), ("x+y+z", &tb), ("sin(x)*y+z*z", &tb), ("K*x*x*y+y", &tbk), ("x*x*y*y", &tbk), ("sin(x*y)+K", &tbk)] {
+        let tb = tb.clone();
         set_table(&tb);
         use exmex::Express;
         let fx = FE::parse_wo_compile(Box::leak(text.to_string().into_boxed_str())).unwrap();
